@@ -169,9 +169,101 @@ def _schedule(rng, nodes, tier):
     return events, npeers
 
 
+def _reorg_war(rng, config):
+    """a scripted family of histories that random forests rarely produce: competing branches, each delivered whole and each
+    just heavy enough to displace the one before (a reorg per delivery), locks placed no deeper than where a chosen stale
+    branch left the chain, then that stale branch comes back: it is extended until it is the heaviest again"""
+    r = rng.fork("war")
+    names = ["h%d" % i for i in range(200)]
+    r.shuffle(names)
+    nid = [0]
+    parent, weight = {}, {}
+
+    def new(par, w=1):
+        lab = names[nid[0]]
+        nid[0] += 1
+        parent[lab], weight[lab] = par, w
+        return lab
+
+    def path_of(tip):
+        out = []
+        while tip != "A":
+            out.append(tip)
+            tip = parent[tip]
+        return out[::-1]
+
+    def total(tip):
+        return sum(weight[x] for x in path_of(tip))
+
+    wpick = (lambda: 1) if r.chance(0.7) else (lambda: r.pick([1, 1, 2, 3]))
+    tips = []
+    tip = "A"
+    batch = []
+    for _ in range(r.between(2, 6)):
+        tip = new(tip, wpick())
+        batch.append(tip)
+    tips.append(tip)
+    batches = [batch]
+    best = tip
+    for _ in range(r.between(1, 4)):
+        host = path_of(r.pick(tips))
+        fork = r.pick(["A"] + host[:-1]) if r.chance(0.8) else host[-1]
+        tip, batch = fork, []
+        need = total(best) + r.pick([1, 1, 2])
+        while (total(tip) if tip != "A" else 0) < need or not batch:
+            tip = new(tip, wpick())
+            batch.append(tip)
+        tips.append(tip)
+        batches.append(batch)
+        best = tip
+    steps = []
+    for b in batches:
+        hs = [[x, parent[x], weight[x]] for x in b]
+        if r.chance(0.2):
+            r.shuffle(hs)
+        steps.append({"op": "deliver", "bc": "bc0", "batch": hs, "t": float(len(steps)), "tags": ["branch"]})
+    # the comeback: a stale branch, and where it left the chain that is reported now
+    stale = r.pick(tips[:-1])
+    bp, sp = path_of(best), path_of(stale)
+    common = 0
+    while common < min(len(bp), len(sp)) and bp[common] == sp[common]:
+        common += 1
+    locks = sorted(set(r.between(0, common) for _ in range(r.between(0, 3))))
+    for k in locks:
+        steps.append({"op": "lock", "bc": "bc0", "index": k})
+        if r.chance(0.3):
+            steps.append({"op": "query", "bc": "bc0", "kind": r.pick(["length", "last_block_hash", "locked_length"]), "arg": None})
+    tip, batch = stale, []
+    need = total(best) + r.pick([1, 1, 3])
+    while total(tip) < need:
+        tip = new(tip, wpick())
+        batch.append(tip)
+    hs = [[x, parent[x], weight[x]] for x in batch]
+    if r.chance(0.3):
+        k = r.between(1, len(hs))
+        steps.append({"op": "deliver", "bc": "bc0", "batch": hs[k:], "t": 100.0, "tags": ["comeback-tail-first"]})
+        steps.append({"op": "deliver", "bc": "bc0", "batch": hs[:k], "t": 101.0, "tags": ["comeback"]})
+    else:
+        steps.append({"op": "deliver", "bc": "bc0", "batch": hs, "t": 100.0, "tags": ["comeback"]})
+    if r.chance(0.4):
+        steps.append({"op": "lock", "bc": "bc0", "back": r.pick([0, 1, 2])})
+    steps.append({"op": "deliver", "bc": "bc0", "batch": [], "t": 1e6 + 1, "tags": ["final"]})
+    labels = ["A"] + list(parent)
+    slots, slot_mode = _gen_slots(rng.fork("slots"), labels)
+    if config == "B-block":
+        for st in steps:
+            if st["op"] == "deliver":
+                st["batch"] = [[a, b, w & 0xFFFFFFFF] for a, b, w in st["batch"]]
+    return {"world": NAME, "config": {"name": config, "slots": slots, "slot_mode": slot_mode, "anchor": "A", "peers": len(tips),
+                                      "scenario": "reorg_war"},
+            "steps": [{"op": "new", "bc": "bc0", "shared": False}] + steps}
+
+
 def gen_plan(rng, tier, index, config=None):
     if config is None:
         config = rng.weighted([("A-simhash", 70), ("A2-two-instances", 10), ("B-block", 20)])
+    if config in ("A-simhash", "B-block") and rng.chance(0.08):
+        return _reorg_war(rng, config)
     if tier == "thorough":
         n = rng.weighted([(rng.between(1, 8), 30), (rng.between(5, 16), 40), (rng.between(10, 40), 20),
                           (rng.between(40, 200), 3)])
